@@ -22,7 +22,11 @@ RULE = (
     "reference full contraction; (4) gen_output_chunks(with_key) yields "
     "nchunks chunks with distinct keys covering the sliced output ranges, "
     "each equal to the reference section; (5) tree.contract == reference, "
-    "also with strip_exponent=True (mantissa x 10**exponent, rel. 1e-9). "
+    "also with strip_exponent=True (mantissa x 10**exponent, rel. 1e-9); (6) in "
+    "a quarter of the cases one operand is handed over with extent 1 along a "
+    "label that others carry in full (broadcast), incl. when that label is "
+    "sliced; (7) in half of the cases the tree is also given to array_contract / "
+    "array_contract_expression as optimize and must yield the same section. "
     "Non-trivial = >=2 removed labels including an output label or a "
     "projection. Distinct = sha1(spec)."
 )
@@ -53,6 +57,12 @@ def cases(draw, max_n):
         "use_before_flip": draw(st.booleans()),
         # number of emulated MPI ranks for the contract_mpi route (0 = skip)
         "mpi_size": draw(st.sampled_from([0, 0, 1, 2, 3, 4, 5, 6, 7])),
+        # one operand is handed over with extent 1 along one of its labels that
+        # other tensors carry with the full size (numpy-style broadcasting, which
+        # the contraction itself supports) - [tensor seed, label seed] or None
+        "stretch": [draw(st.integers(0, 50)), draw(st.integers(0, 50))] if draw(st.integers(0, 3)) == 0 else None,
+        # also hand the (sliced / projected) tree to the high-level interface
+        "via_interface": draw(st.sampled_from([None, None, "array_contract", "expression"])),
     }
 
 
@@ -74,6 +84,29 @@ def run_case(spec, sub=None):
     removed = [(ix, p) for ix, p in spec["removed"]]
     arrays = ref.make_arrays(inputs, sizes, spec["aseed"], spec["dtype"])
     viol = []
+    # the arrays cotengra is given; ``arrays`` stay the full-size ones the
+    # reference uses
+    given = list(arrays)
+    stretched = None
+    if spec.get("stretch"):
+        ts, ls = spec["stretch"]
+        cnt_ = {}
+        for t in inputs:
+            for ix in set(t):
+                cnt_[ix] = cnt_.get(ix, 0) + 1
+        opts = [
+            (i, ix) for i, t in enumerate(inputs) for ix in sorted(set(t))
+            if t.count(ix) == 1 and cnt_[ix] >= 2 and sizes[ix] >= 2
+        ]
+        if opts:
+            i, ix = opts[(ts * 7 + ls) % len(opts)]
+            ax = inputs[i].index(ix)
+            small = np.take(arrays[i], [0], axis=ax)
+            arrays = list(arrays)
+            arrays[i] = np.ascontiguousarray(np.repeat(small, sizes[ix], axis=ax))
+            given = list(arrays)
+            given[i] = small
+            stretched = (i, ix)
 
     ok, tree = guarded(
         ctg.ContractionTree.from_path, inputs, output, sizes,
@@ -105,7 +138,7 @@ def run_case(spec, sub=None):
         if spec.get("use_before_flip"):
             # the tree is used first (slice keys, a full contraction)
             guarded(lambda: [tree.slice_key(i) for i in range(tree.nslices)])
-            guarded(tree.contract, arrays)
+            guarded(tree.contract, given)
         for k_ in flips:
             ix, p = removed[k_]
             newp = (spec.get("flip_value", 0) % sizes[ix]) if p is None else None
@@ -147,7 +180,7 @@ def run_case(spec, sub=None):
     for i, key in enumerate(keys):
         exp = ref.dense_ref(inputs, output, sizes, arrays, fixed=key)
         true_slices.append(exp)
-        ok, g = guarded(tree.contract_slice, arrays, i, **kw)
+        ok, g = guarded(tree.contract_slice, given, i, **kw)
         if not ok:
             viol.append(f"contract_slice({i}) raised {g}")
             break
@@ -180,7 +213,7 @@ def run_case(spec, sub=None):
     # (4) output chunks
     if not viol:
         ok, chunks = guarded(
-            lambda: list(tree.gen_output_chunks(arrays, with_key=True, **kw))
+            lambda: list(tree.gen_output_chunks(given, with_key=True, **kw))
         )
         if not ok:
             viol.append(f"gen_output_chunks raised {chunks}")
@@ -258,7 +291,7 @@ def run_case(spec, sub=None):
         total, okall = None, True
         for rank in range(size_):
             comm = Comm(rank)
-            ok, g = guarded(tree.contract_mpi, arrays, comm=comm, **kw)
+            ok, g = guarded(tree.contract_mpi, given, comm=comm, **kw)
             if not ok:
                 viol.append(f"contract_mpi(rank {rank} of {size_}) raised {g}")
                 okall = False
@@ -277,11 +310,27 @@ def run_case(spec, sub=None):
 
     # (5) full contract
     if not viol:
-        ok, g = guarded(tree.contract, arrays, **kw)
+        ok, g = guarded(tree.contract, given, **kw)
         if not ok:
             viol.append(f"contract raised {g}")
         else:
             cmp_full(g, "contract")
+
+    # (6) the same tree handed to the high-level interface as ``optimize``:
+    # its sliced and projected labels are part of what it says
+    if not viol and spec.get("via_interface"):
+        if spec["via_interface"] == "array_contract":
+            ok, g = guarded(ctg.array_contract, given, inputs, output, optimize=tree, **kw)
+            what = "array_contract(optimize=tree)"
+        else:
+            ok, g = guarded(
+                lambda: ctg.array_contract_expression(inputs, output, sizes, optimize=tree, **kw)(*given)
+            )
+            what = "array_contract_expression(optimize=tree)(*arrays)"
+        if not ok:
+            viol.append(f"{what} raised {g}")
+        else:
+            cmp_full(g, what)
 
     cls = gen.net_classes(net)
     has_out = any(ix in output for ix, _ in removed)
@@ -307,4 +356,12 @@ def run_case(spec, sub=None):
         tags.append("hyper_removed")
     if any(cnt[ix] == 1 for ix, _ in removed):
         tags.append("single_tensor_removed")
+    if stretched:
+        tags.append("broadcast_operand")
+        if any(ix == stretched[1] for ix, _ in removed):
+            tags.append("broadcast_label_removed")
+    if spec.get("via_interface"):
+        tags.append(f"interface:{spec['via_interface']}")
+        if len(inputs) == 2:
+            tags.append("interface_two_terms")
     return Outcome(viol, nontrivial, tags, {"slices_checked": len(keys)})
